@@ -62,23 +62,36 @@ Check C22_sorted_segment_perm_invariant : forall (A : Type) (key : A -> gd_key) 
   gd_sort key (pre ++ e1 ++ post) = gd_sort key (pre ++ e2 ++ post).
 Print Assumptions C22_sorted_segment_perm_invariant.
 
-(* apollo-smith: the generator threads one Unstructured through pure functions; its only enumeration of a
-   hash-ordered container is the fallback of topo_order_parents_first.  Over an abstract toposort (a function
-   of the graph): with an acyclic implements graph the order does not depend on the HashMap, with a cyclic
-   one it does (finding smith_implements_cycle_order: reachable through DocumentBuilder::with_document on a
-   document whose interfaces implement each other; full statement "build is a function of the bytes" is
-   therefore proved only for acyclic graphs, which DocumentBuilder::new maintains — that invariant is C32's). *)
-Theorem C22_smith_topo_order_partial : forall (G : Type) (toposort : G -> option (list str)) (g : G),
-  (forall ord, toposort g = Some ord -> OrderIrrelevant (smith_topo_order G toposort g)) /\
-  (toposort g = None -> OrderLeaks (smith_topo_order G toposort g)).
-Proof.
-  exact (sites_covered site_apollo_smith_src_implements_graph_rs_topo_order_parents_first_1
-           (generated_sites_complete _)).
-Qed.
-Check C22_smith_topo_order_partial : forall (G : Type) (toposort : G -> option (list str)) (g : G),
-  (forall ord, toposort g = Some ord -> OrderIrrelevant (smith_topo_order G toposort g)) /\
-  (toposort g = None -> OrderLeaks (smith_topo_order G toposort g)).
+(* apollo-smith: the generator threads one Unstructured through pure functions; the only place that enumerated a
+   hash-ordered container was the cycle fallback of ImplementsGraph::topo_order_parents_first (finding
+   smith_implements_cycle_order, repaired: the fallback now returns the node weights of the graph in index =
+   insertion order; the scanner no longer reports a site in apollo-smith).  Over an abstract toposort and an
+   abstract node_weights (functions of the graph) and with the enumeration of the `by_name` HashMap as a parameter:
+   the returned order does not depend on that enumeration, for every graph, cyclic or not.
+   Partial: the full statement "DocumentBuilder::build is a function of the bytes" is this theorem plus the
+   scanner's report that no other expression of apollo-smith enumerates a hash-ordered container (trusted, syntactic)
+   plus the cross-process tie of c22_smith; petgraph's toposort is abstract. *)
+Theorem C22_smith_topo_order_partial :
+  forall (G : Type) (toposort : G -> option (list str)) (node_weights : G -> list str) (g : G),
+  OrderIrrelevant (smith_topo_order G toposort node_weights g) /\
+  (toposort g = None -> forall keys_enum, smith_topo_order G toposort node_weights g keys_enum = node_weights g).
+Proof. exact smith_topo_order_both. Qed.
+Check C22_smith_topo_order_partial :
+  forall (G : Type) (toposort : G -> option (list str)) (node_weights : G -> list str) (g : G),
+  OrderIrrelevant (smith_topo_order G toposort node_weights g) /\
+  (toposort g = None -> forall keys_enum, smith_topo_order G toposort node_weights g keys_enum = node_weights g).
 Print Assumptions C22_smith_topo_order_partial.
+
+(* the code before the repair (`Err(_) => self.by_name.keys().cloned().collect()`): order-independent only without a
+   cycle; with a cycle two enumerations of the same HashMap content give two different orders *)
+Theorem C22_smith_topo_order_old_refuted : forall (G : Type) (toposort : G -> option (list str)) (g : G),
+  (forall ord, toposort g = Some ord -> OrderIrrelevant (smith_topo_order_old G toposort g)) /\
+  (toposort g = None -> OrderLeaks (smith_topo_order_old G toposort g)).
+Proof. exact smith_topo_old_both. Qed.
+Check C22_smith_topo_order_old_refuted : forall (G : Type) (toposort : G -> option (list str)) (g : G),
+  (forall ord, toposort g = Some ord -> OrderIrrelevant (smith_topo_order_old G toposort g)) /\
+  (toposort g = None -> OrderLeaks (smith_topo_order_old G toposort g)).
+Print Assumptions C22_smith_topo_order_old_refuted.
 
 (* non-vacuity: three unused variables enumerated in two orders between other diagnostics *)
 Example C22_nonvacuous :
@@ -94,3 +107,16 @@ Proof.
   cbv zeta. split; [|split; vm_compute; reflexivity].
   repeat (constructor; [cbn; intuition discriminate|]). constructor.
 Qed.
+
+(* non-vacuity of the apollo-smith statement: a graph (here just its node list) on which the toposort fails; the
+   repaired fallback returns the nodes in insertion order whatever the HashMap enumerates, the old one returned
+   the enumeration *)
+Example C22_smith_nonvacuous :
+  let toposort := fun g : list str => match g with [] => Some [] | _ => None end in
+  let node_weights := fun g : list str => g in
+  let g := [[65]; [66]; [67]]%N in
+  toposort g = None /\
+  smith_topo_order (list str) toposort node_weights g [[67]; [65]; [66]]%N = g /\
+  smith_topo_order (list str) toposort node_weights g [[66]; [67]; [65]]%N = g /\
+  smith_topo_order_old (list str) toposort g [[67]; [65]; [66]]%N <> smith_topo_order_old (list str) toposort g g.
+Proof. cbv zeta. repeat split. vm_compute. discriminate. Qed.
